@@ -223,6 +223,9 @@ class PseudoOperand(Operand):
                 self.value = DirectNumericValue(self.value.int)
 
     def resolve_symbols(self, symbol_table):
+        if self.instruction.mnemonic == "ORG" and self.value.is_symbol():
+            # The origin may be named by a symbol that was given a value with EQU
+            self.value = self.value.resolve(symbol_table)
         if self.instruction.mnemonic == "END" and self.value.is_symbol():
             self.value.resolve(symbol_table)
         if self.instruction.mnemonic == "END" and self.value.is_expression():
@@ -267,6 +270,8 @@ class PseudoOperand(Operand):
             )
 
         if self.instruction.mnemonic == "ORG":
+            if not self.value.is_numeric() or self.value.is_negative():
+                raise OperandTypeError("[ORG] requires a numeric value from 0 to 65535")
             return CodePackage(address=self.value)
 
         if self.instruction.mnemonic == "FCC":
